@@ -1,5 +1,7 @@
 package updown
 
+import "bytes"
+
 var vMenu = []string{"CAA", "AAA", "CCA", "CCC", "ACA", "ACC", "CAN", "ANA", "NAA", "CCN", "ACN"}
 
 // vMenuTargets: T targets, each an arbitrary entry of a menu of sequences that covers all four bins,
@@ -129,12 +131,33 @@ func vPushMenuTargets(T int) (updownLine, []updownLine) {
 	return ls[0], ls[1:]
 }
 
+// vManyTargets: a concrete crowd for one bin: the query equals the reference, so every target with a SNP is
+// "down"; T targets cycle through eight patterns (two distances, with and without an ambiguity), so that every
+// (distance, ambiguity count) class holds several targets whose order can only come from the file order; the
+// file order itself is rotated by a symbolic offset.
+var vManyMenu = []string{"CAAA", "ACAA", "AANC", "NCAA", "CCAA", "ACCA", "CNCA", "AACC"}
+
+func vManyTargets(T, rot int) (updownLine, []updownLine) {
+	txts := make([][]byte, T+1)
+	ids := make([]string, T+1)
+	txts[0] = []byte("AAAA")
+	ids[0] = "query"
+	for i := 0; i < T; i++ {
+		txts[i+1] = []byte(vManyMenu[(i+rot)%len(vManyMenu)])
+		ids[i+1] = "t" + vItoa(i)
+	}
+	ls := vLines([]byte("AAAA"), txts, ids)
+	return ls[0], ls[1:]
+}
+
 func VH_C08_push() {
 	T := vParam("T")
 	vMapOrder(vParam("MAPORDER") == 1)
 	var q updownLine
 	var targets []updownLine
-	if vParam("MENU") == 1 {
+	if vParam("MENU") == 2 {
+		q, targets = vManyTargets(T, vChoice("rotation", len(vManyMenu)))
+	} else if vParam("MENU") == 1 {
 		q, targets = vPushMenuTargets(T)
 	} else {
 		q, targets = vMenuTargets(T)
@@ -200,5 +223,45 @@ func VH_C08_push() {
 		for i := range L {
 			vAssert("C08.d.bin-content-and-order", L[i].tname == targets[want[i]].id && L[i].distance == dist[want[i]])
 		}
+	}
+}
+
+// VH_C08_threshold: the pair-ambiguity threshold at its boundary. Ten consequential sites (the query's ten
+// SNPs), of which the target is ambiguous at k (symbolic 0..10); --threshold-pair t/10 for t in 1,3,5,7,9 (the
+// float32 the command line parses). The pair passes exactly when k/10 does not exceed t/10 -- including
+// k = t, where the two sides are the same number however it is rounded -- and then the target is "same" at
+// distance 0; through whichWay and through the whole TopRanking command.
+func VH_C08_threshold() {
+	ref := []byte("AAAAAAAAAA")
+	k := vChoice("ambiguousSites", 11)
+	t10 := 1 + 2*vChoice("threshold", 5)
+	thr := []float32{0.1, 0.3, 0.5, 0.7, 0.9}[(t10-1)/2]
+	target := []byte("CCCCCCCCCC")
+	for i := 0; i < k; i++ {
+		target[i] = 'N'
+	}
+	ls := vLines(ref, [][]byte{[]byte("CCCCCCCCCC"), target}, []string{"q", "t"})
+	dir, dist := whichWay(ls[0], ls[1], thr)
+	if k > t10 {
+		vAssert("C08.t.pair-above-threshold-excluded", dist == -1)
+	} else {
+		vAssert("C08.t.pair-at-or-below-threshold-kept", dir == 0 && dist == 0)
+	}
+	// the whole command
+	w := &vCapture{}
+	qf := []byte(">q\nCCCCCCCCCC\n")
+	tf := append(append([]byte(">t\n"), target...), '\n')
+	err := TopRanking(bytes.NewReader(qf), bytes.NewReader(tf), bytes.NewReader([]byte(">ref\nAAAAAAAAAA\n")), w, true, "fasta", "fasta", nil, 0, 0, 0, 0, 0, 5, 0, 0, 0, thr, 10000, false, 0)
+	vAssert("C08.t.command-ok", err == nil)
+	rows := 0
+	for _, c := range w.buf {
+		if c == '\n' {
+			rows++
+		}
+	}
+	if k > t10 {
+		vAssert("C08.t.command-excludes-the-pair", rows == 1)
+	} else {
+		vAssert("C08.t.command-reports-the-pair", rows == 2)
 	}
 }
